@@ -165,9 +165,15 @@ func runC07(r *run) {
 					}
 					cur.Set(args...)
 				default:
+					// a prepared list whose entries are pairs and ready Attr objects in any mix (duplicates included:
+					// the last occurrence in the list wins)
 					var args []any
 					for _, a := range own {
-						args = append(args, a.k, a.v)
+						if g.chance(1, 2) {
+							args = append(args, a.k, a.v)
+						} else {
+							args = append(args, slog.Int(a.k, a.v))
+						}
 					}
 					cur.SetAttrs1(slog.NewAttrs(args...))
 				}
@@ -303,6 +309,9 @@ func runC07(r *run) {
 				callArgs = append(callArgs, slog.NewAttr(a.k, a.v))
 			}
 		}
+		if len(callArgs) > 0 && g.chance(1, 6) {
+			callArgs = []any{slog.NewAttrs(callArgs...)} // the same arguments as one prepared list
+		}
 		if nilCtx {
 			fromCtx = nil
 			cur.InfoContext(nil, "probe-message", callArgs...) //nolint
@@ -406,15 +415,28 @@ func runC07(r *run) {
 			l.SetColorMode(true)
 		}
 		np := 1 + g.intn(20)
+		big := g.chance(1, 5)
+		if big {
+			np = 35 + g.intn(120) // larger than any pooled or pre-sized scratch list
+		}
 		keyPool := c07Keys[:2+g.intn(len(c07Keys)-2)]
 		var pairs []kvp
 		var gargs []any
+		var gattrs []slog.Attr
 		for j := 0; j < np; j++ {
 			a := kvp{g.pick(keyPool), next()}
+			if big && g.chance(9, 10) {
+				a.k = fmt.Sprintf("k%03d", (j*37)%211)
+			}
 			pairs = append(pairs, a)
 			gargs = append(gargs, a.k, a.v)
+			gattrs = append(gattrs, slog.Int(a.k, a.v))
 		}
-		l.Info("group-probe", slog.Group("grp", gargs...))
+		if i%2 == 0 {
+			l.Info("group-probe", slog.Group("grp", gargs...))
+		} else {
+			l.Info("group-probe", slog.NewGroupedAttr("grp", gattrs...))
+		}
 		w := rec.take()
 		last := map[string]int{}
 		for _, a := range pairs {
